@@ -37,7 +37,7 @@ fn parts() -> Vec<Box<dyn PartDyn>> {
 // reference bounds
 
 /// max admissible r for a given o under the family's envelope (0 if none), straight from the definition
-fn r_bound(kind: Kind, o: u128) -> u128 {
+pub fn r_bound(kind: Kind, o: u128) -> u128 {
     if o < 1 {
         return 0;
     }
